@@ -7,7 +7,8 @@ CONSTANTS
   ReserveNs = {}
   AllocBelow = 0
   AllocAbove = 0
-  ByteSized = FALSE
+  ESize <- TESize
+  EAlign <- TEAlign
   Lifetime = FALSE
 INVARIANTS LastAgrees
 POSTCONDITION Post
